@@ -992,6 +992,11 @@ impl Wallet {
 
     let amount = decimal.to_integer(entry.divisibility)?;
 
+    ensure!(
+      amount > 0,
+      "cannot send or burn zero `{spaced_rune}`: an edict amount of zero transfers all runes",
+    );
+
     let inscribed_outputs = self
       .inscriptions()
       .keys()
